@@ -41,11 +41,11 @@ class C03(Spec):
                 out.append(self.job(s))
             for s in docs.g2_shards(docs.load_pool("mini"), replace=True):
                 out.append(self.job(s))
-            for name, n in (("autolink", 5), ("emphasis", 4)):
-                for s in docs.sigma_shards(name, n, 1):
+            for name, n, split in (("autolink", 5, 2), ("emphasis", 4, 1)):
+                for s in docs.sigma_shards(name, n, split):
                     out.append(self.job(s, budget=200.0))
         else:
-            for name, n, split in (("autolink", 6, 1), ("emphasis", 6, 2), ("links", 5, 1), ("containers", 5, 1)):
+            for name, n, split in (("autolink", 6, 3), ("emphasis", 6, 3), ("links", 5, 2), ("containers", 5, 2)):
                 for s in docs.sigma_shards(name, n, split):
                     out.append(self.job(s, budget=900.0))
             for s in docs.g1_shards(2):
